@@ -136,6 +136,10 @@ func (d *Decoder) decodeOBUs(pkt *rtp.Packet) ([][]byte, error) {
 		d.resetFragments()
 	} else {
 		d.firstPacketReceived = true
+
+		// the packet does not continue a fragmented OBU,
+		// discard fragments of an incomplete OBU, if any
+		d.resetFragments()
 	}
 
 	// last OBU will continue in next packet
